@@ -146,6 +146,7 @@ def map(
     to_process = []
     to_render = []
     to_scatter = []
+    operations = []
     for layer in layers:
         if not isinstance(layer, Layer):
             raise TypeError(f"Expected Layer object, got {type(layer)} instead. ")
@@ -165,6 +166,7 @@ def map(
             to_scatter.append({"data": layer.data, "params": layer.kwargs})
         else:
             to_process.append(layer.data)
+            operations.append(layer.operation)
             to_render.append(
                 {
                     "mode": layer.mode,
@@ -386,14 +388,22 @@ def map(
         ndim=ndim,
     )
 
-    # Apply operation along depth
-    binned = getattr(np, operation)(binned, axis=1)
+    # Apply each layer's operation along depth (a vector layer occupies three rows)
+    row_operations = []
+    for ind in range(len(to_render)):
+        row_operations += [operations[ind]] * (1 if scalar_layer[ind] else 3)
+    binned = np.array(
+        [getattr(np, op)(binned[row], axis=0) for row, op in enumerate(row_operations)]
+    )
 
     # Handle thick maps
-    if thick and ((operation == "sum") or (operation == "nansum")):
-        binned *= zspacing
-        for layer in to_render:
-            layer["unit"] = layer["unit"] * dataz.unit
+    if thick:
+        for row, op in enumerate(row_operations):
+            if (op == "sum") or (op == "nansum"):
+                binned[row] *= zspacing
+        for layer, op in zip(to_render, operations):
+            if (op == "sum") or (op == "nansum"):
+                layer["unit"] = layer["unit"] * dataz.unit
 
     # Mask NaN values
     mask = np.isnan(binned[-1, ...])
